@@ -100,7 +100,7 @@ def run(ctx):
     for name, ov in slices:
         scheds, classes, consts = pc.mc_slice(ctx, "MCInitiatorC28.cfg", "C28" + name, ov, timeout=1500)
         model |= classes["c28"]
-        find, cover = pc.select(ctx, scheds, 1500 if t else 250)
+        find, cover = pc.select(ctx, scheds, 100000 if t else 700)
         cfg = pc.run_cfg_from_consts(consts, strict=True)
         for i, s in enumerate(find + cover):
             rows.append({"id": "%s-%s%d" % (name, s["kind"][0], i), "cfg": cfg, "sched": s["sched"],
@@ -117,7 +117,16 @@ def run(ctx):
         ctx.sample({"tlc_counterexample": ["%s%s" % (s["ev"], ":" + s["m"]["kind"] if s["m"]["kind"] != "-" else "")
                                             for s in viol_rows[0]["sched"]], "classes": viol_rows[0]["expect"]})
     n_m2 = judge(ctx, trace, "TLC schedule replay")
-    drift(ctx, trace, "M2")
+    # design-model comparison on a bounded part of the replays
+    ev = vlib.read_ndjson(trace)
+    cut = 40000 if t else 6000
+    part = trace
+    if len(ev) > cut:
+        while cut < len(ev) and ev[cut].get("ev") != "reset":
+            cut += 1
+        part = ctx.path("m2.part.ndjson")
+        vlib.write_ndjson(part, ev[:cut])
+    drift(ctx, part, "M2")
     # classes the model predicts but the real code did not show (or vice versa) are drift, not a verdict
     real = set(ctx.known_hits.keys()) | set(v[0] for v in ctx.violations)
     if model - real:
